@@ -11,9 +11,10 @@ def I(name, entry, **kw):
              bound='message with only this field set; ' + STR); d.update(kw); return d
 def CASE(field, k, n, **kw):
     return I('f_%s_c%d' % (field, k), 'h_f_' + field, cdefs={'DOM_MAXCH': 6, 'DOM_MAXATTR': 16, 'VP_CASE': k}, bound='message with only this field set (enum value %d of %d); %s' % (k, n, STR), **kw)
-THOROUGH_ONLY = ('stanza_id', 'mix_jid', 'mix_nick')   # variants of stanza_ids2 / mix_user; also exercised (symbolic presence) by ni_sensitive_*
+THOROUGH_ONLY = ('stanza_id', 'mix_jid', 'mix_nick',   # variants of stanza_ids2 / mix_user; also exercised (symbolic presence) by ni_sensitive_*
+                 'attention', 'replace_id', 'trust_message', 'mix_invitation', 'file_sources', 'shared_file')   # same code shape as attach_id / reaction; in quick they are covered by allset, envelope and ni_* only
 FIELD_INSTANCES = ([I('f_' + f, 'h_f_' + f, tiers=('thorough',) if f in THOROUGH_ONLY else ('quick', 'thorough')) for f in PUBLIC_FIELDS + BOTH_FIELDS + SENSITIVE_FIELDS]
-                   + [CASE('hint', k, 4, tiers=('quick', 'thorough') if k in (0, 3) else ('thorough',)) for k in range(4)]
+                   + [CASE('hint', k, 4, tiers=('quick', 'thorough') if k == 3 else ('thorough',)) for k in range(4)]
                    + [CASE('chat_state', k, 5, tiers=('quick', 'thorough') if k == 4 else ('thorough',)) for k in range(5)]
                    + [CASE('marker', k, 3, tiers=('quick', 'thorough') if k == 1 else ('thorough',)) for k in range(3)])
 BIG = dict(unwind=40, object_bits=14, cdefs={'DOM_MAXCH': 36, 'DOM_MAXATTR': 24}, mem_gb=6, timeout_s=600)
@@ -36,8 +37,8 @@ TEXT_INSTANCES = [TEXT(t, c) for t, c in TEXT_QUICK] + [TEXT(t, c, tiers=('thoro
 KF_INSTANCES = [I('kf_jmi', 'h_kf_jmi', known_finding=KF), I('kf_call_invite', 'h_kf_call_invite', known_finding=KF)]
 _by = {i['name']: i for i in COMPOSITE + FIELD_INSTANCES}
 # the non-interference / all-set / single-field instances again under the other message types
-TYPED = ([WITH_TYPE(_by['ni_public_empty'], t) for t in (3, 0)] + [WITH_TYPE(_by['ni_public_full'], 3)]
-         + [WITH_TYPE(_by['ni_public_empty'], t, tiers=('thorough',)) for t in (1, 4)] + [WITH_TYPE(_by['ni_public_full'], t, tiers=('thorough',)) for t in (0, 1, 4)]
+TYPED = ([WITH_TYPE(_by['ni_public_empty'], t) for t in (3, 0, 1, 4)] + [WITH_TYPE(_by['ni_public_full'], 3)]
+         + [WITH_TYPE(_by['ni_public_full'], t, tiers=('thorough',)) for t in (0, 1, 4)]
          + [WITH_TYPE(_by[n], t, tiers=('thorough',)) for n in ('ni_sensitive_empty', 'ni_sensitive_full', 'allset') for t in (0, 3)]
          + [WITH_TYPE(_by[n], 3, tiers=('thorough',)) for n in ('f_subject', 'f_body', 'f_thread', 'f_e2ee_fallback_body')])
 SEND_TUS = TUS + ['src/client/QXmppClient.cpp']
@@ -54,7 +55,9 @@ SPEC = dict(
         dict(name='send', harness='h_send.cpp', tus=SEND_TUS, models=MODELS + ['c17_send.c'], cxxdefs={'_GLIBCXX_RANGES': 1}, shadow_task=True,
              instances=SEND_INSTANCES),
     ],
-    bounds=['send_*: one message per run through the real send path; 2 payload variants (body+subject+oob+attach-to+reply / reaction+receipt request+marker+chat state+markable) plus origin-id and a store hint; encryption result: message with/without XEP-0380 namespace x with/without fallback body, or error; entry sendSensitive or reply(e2eeMetadata)',
+    bounds=['message type: a structural case per instance (VP_C17_TYPE); default chat; ni_public_empty under all five types and ni_public_full under chat and groupchat in quick, the remaining type x {ni_*, allset, f_subject/body/thread/e2ee_fallback_body} combinations in thorough',
+            'text_<type>_c<K>: exactly the listed subset of {body, subject, thread, parent thread, stanza error} set (exact-length strings, absent = empty): quick = groupchat x subject-only, groupchat x all four, error x body+stanza error, headline x subject+thread, normal x parent-only; thorough = all five types x {every subset of body/subject/thread, thread+parent, all four}',
+            'send_*: one message per run through the real send path; 2 payload variants (body+subject+oob+attach-to+reply / reaction+receipt request+marker+chat state+markable) plus origin-id and a store hint; encryption result: message with/without XEP-0380 namespace x with/without fallback body, or error; entry sendSensitive or reply(e2eeMetadata)',
             'every string-valued field: exactly 1 arbitrary UTF-16 code unit (string LENGTHS are concrete, contents symbolic); integers, the stamp and the bob max-age: full range',
             'f_*: message with exactly one extension field (or one group such as thread+parent, marker+id+thread, MUC jid+password+reason) set; enum-valued fields one value per instance (hints 4, chat states 5, markers 3; quick tier runs the boundary values)',
             'allset / allset_all / envelope: every extension at once: 13 elements in the public part, 25 in the sensitive part (<= 2 stanza ids, 1 element per list-valued field)',
@@ -74,6 +77,7 @@ SPEC = dict(
              'OMEMO element (BUILD_OMEMO is off in the build this framework mirrors)',
              'arbitrary subsets of the fields in the part that is being serialized (only: one field, all fields, none; the OTHER part\'s fields are arbitrary subsets in ni_*)',
              'encryptionName without encryptionMethod, parentThread without thread, spoiler hint without spoiler: not serialized at all by design',
+             'stanza errors other than (cancel, item-not-found) without text; a symbolic (non-case-split) message type gave no verdict (SAT memory)',
              'receipt request together with a receipt id (the serializer drops the request by design)',
              'fallback markers with references (QXmppFallback codec itself is C01\'s subject; markers carry a for-namespace only)',
              'strings longer than 1 unit, more than 2 stanza ids / 1 element per list-valued extension; unknown (third-party) extension elements',
